@@ -242,6 +242,80 @@ def job_history_random(seed, tier):
                      % (budget, counters["queries"], counters["history"], counters["spec"])}
 
 
+def job_history_tapscript(seed, tier):
+    """script-path histories through the library's own helper (seed C05-E): an input is initialised for leaf A of a k-of-n tree
+    with Tx.initialize_p2tr_multisig (which also records the tap script on the TxIn), a digest may be taken, then the witness
+    is replaced so that the input spends leaf B of the same output (with or without annex), and the script-path digest
+    (ext_flag = 1) is asked for every hash type: it must equal the digest of a FRESH transaction object with the same fields
+    (the fresh object's script-path digest itself is compared with the spec by the grid / rt-contract jobs)"""
+    from buidl.pecc import PrivateKey
+    from buidl.taproot import TapRootMultiSig
+    from buidl.tx import Tx, TxIn, TxOut
+    from buidl.witness import Witness
+    from buidl.script import P2WPKHScriptPubKey
+    rng = random.Random(seed * 104729 + 5)
+    fails, n = [], 0
+    rounds = 2 if tier == "quick" else 8
+    for rnd in range(rounds):
+        k, nn = ((1, 2), (2, 3), (2, 2), (1, 3))[rnd % 4]
+        points = [PrivateKey(rng.randrange(1, 2**200)).point for _ in range(nn)]
+        ms = TapRootMultiSig(points, k)
+        internal = ms.default_internal_pubkey
+        tree = ms.multi_leaf_tree() if (k, nn) != (2, 2) else ms.everything_tree()
+        leaves = tree.leaves()
+        if len(leaves) < 2:
+            continue
+        root = tree.hash()
+        n_in = 1 + rnd % 2
+
+        def build(witnesses):
+            ins = []
+            for j in range(n_in):
+                ti = TxIn(bytes([j + 1 + rnd]) * 32, j, sequence=0xFFFFFFFE - j)
+                ti._value = 50000 + j
+                ti._script_pubkey = internal.p2tr_script(root)
+                if witnesses[j] is not None:
+                    ti.witness = Witness(list(witnesses[j]))
+                ins.append(ti)
+            outs = [TxOut(40000, P2WPKHScriptPubKey(bytes([7 + rnd]) * 20)), TxOut(9000 + rnd, P2WPKHScriptPubKey(bytes([9]) * 20))]
+            return Tx(2, ins, outs, 0, network="signet", segwit=True)
+        for i in range(n_in):
+            for a, b in ((0, 1), (1, 0), (len(leaves) - 1, 0)):
+                if a == b:
+                    continue
+                la, lb = leaves[a], leaves[b]
+                wit_b = [lb.tap_script.raw_serialize(), tree.control_block(internal, lb).serialize()]
+                for annex in (None, b"\x50" + bytes([rnd + 1]) * 3):
+                    for query_first in (False, True):
+                        wb = wit_b + ([annex] if annex else [])
+                        t = build([None] * n_in)
+                        t.initialize_p2tr_multisig(i, tree.control_block(internal, la), la.tap_script)
+                        if query_first:
+                            t.sig_hash_bip341(i, ext_flag=1, hash_type=0)
+                        t.tx_ins[i].witness = Witness(list(wb))
+                        fresh = build([wb if j == i else None for j in range(n_in)])
+                        for ht in G.TAPROOT_TYPES:
+                            n += 1
+                            try:
+                                got = t.sig_hash_bip341(i, ext_flag=1, hash_type=ht)
+                            except Exception as ex:      # noqa
+                                got = ("raise", type(ex).__name__)
+                            try:
+                                want = fresh.sig_hash_bip341(i, ext_flag=1, hash_type=ht)
+                            except Exception as ex:      # noqa
+                                want = ("raise", type(ex).__name__)
+                            if got != want and len(fails) < 3:
+                                fails.append(_fail("history-dependence bip341 script path: input initialised for leaf %d with initialize_p2tr_multisig, "
+                                                   "witness then replaced by leaf %d%s: digest ht=%#04x is %s, a fresh object with the same fields gives %s"
+                                                   % (a, b, " + annex" if annex else "", ht, _show(got), _show(want)),
+                                                   {"k": k, "n": nn, "input": i, "leaf_a": a, "leaf_b": b, "annex": annex, "hash_type": ht,
+                                                    "queried_before_replacement": query_first},
+                                                   ["digest depends only on the current transaction and spent outputs"]))
+    return {"evaluations": n, "distinct": n, "failures": fails, "samples": [],
+            "bound": "%d k-of-n trees (library-built), every input, three (leaf A -> leaf B) replacements, with/without annex, with/without a "
+                     "digest taken before the replacement, 7 hash types; compared with a fresh object" % rounds}
+
+
 def job_mixed_algorithms(seed, tier):
     """one transaction with a P2PKH, a P2WPKH and a P2TR input: digests of different algorithms / inputs / hash
     types queried in every order on one object must equal the answers of fresh objects"""
@@ -388,7 +462,7 @@ def _job_vectors(seed, tier):
 
 _GEN = [n for n in ALL if REG.contracts[n].gen is not None]
 BOUNDED = [("rt-contracts-%d" % _k, fuzz_job(_GEN[_k::4])) for _k in range(4)] + [ ("history-enumerated", job_history_enumerated), ("history-random", job_history_random),
-           ("mixed-algorithms", job_mixed_algorithms), ("grid", job_grid), ("vectors", job_vectors)]
+           ("history-tapscript", job_history_tapscript), ("mixed-algorithms", job_mixed_algorithms), ("grid", job_grid), ("vectors", job_vectors)]
 TRUSTED_BASE = ["pyvc symbolic executor (A-ENGINE)", "z3", "spec functions verif/specs/sighash.py + txwire.py + wire.py (A-SPEC; validated against "
                 "the BIP143 and BIP341 published vectors and Core's sighash.json #1 in the `vectors` job)",
                 "API harnesses verif/harness/sighash.py + txcodec.py", "CPython built-ins per verif/pyvc/calls.py (A-BUILTIN)",
